@@ -4,8 +4,6 @@ package main
 
 import (
 	"fmt"
-	"os"
-	"path/filepath"
 	"strings"
 
 	"github.com/semihalev/sdns/internal/verif/vlib"
@@ -257,42 +255,14 @@ func genL3Case(r *vlib.R, emit func(string), p l3Plan) int {
 	return cnt
 }
 
-// sigCnameLoop: see notes/C12.md "Candidate finding". Alias loops of 30 and more names
-// keep an unmetered (firewall off / shadow) resolver busy for minutes. Until the lead has
-// recorded that signature in known_findings.jsonl the generator stays below that length for
-// unmetered CNAME loops (the witness is corpus-ready in harness/c12/witness_cname_loop.ops);
-// once it is recorded the region is explored again (and reported as KNOWN-FINDING).
-const sigCnameLoop = "l3/query/not-within-query-timeout/cname-loop-unmetered"
-
-func knownFinding(sig string) bool {
-	dir := os.Getenv("VERIF_DIR")
-	if dir == "" {
-		dir = "/verif"
-	}
-	b, err := os.ReadFile(filepath.Join(dir, "known_findings.jsonl"))
-	if err != nil {
-		return false
-	}
-	for _, ln := range strings.Split(string(b), "\n") {
-		if strings.Contains(ln, `"C12"`) && strings.Contains(ln, sig) && strings.Contains(ln, `"known"`) {
-			return true
-		}
-	}
-	return false
-}
-
 func planL3(r *vlib.R, fam string, v int, mode string, qmin int) l3Plan {
 	p := l3Plan{fam: fam, v: v, mode: mode, qmin: qmin, maxdepth: 30}
 	big := r.Chance(1, 4)
 	p.n = sizeFor(r, fam, big)
-	if fam == "cname" && v == 0 && mode != "enforce" {
-		if knownFinding(sigCnameLoop) {
-			if big && r.Chance(1, 2) {
-				p.n = vlib.Pick(r, []int{30, 31, 36, 48})
-			}
-		} else if p.n > 29 {
-			p.n = r.Range(12, 29)
-		}
+	if fam == "cname" && big && r.Chance(1, 2) {
+		// loop lengths that do not align with the cache's ten-hop chase (30, 31, 36 and 48 kept an
+		// unmetered resolver busy for minutes before 31d979d), and arbitrary long ones
+		p.n = vlib.Pick(r, []int{30, 31, 36, 48, r.Range(30, 64)})
 	}
 	switch mode {
 	case "enforce":
@@ -346,6 +316,8 @@ func gen(r *vlib.R, n int, tier string, emit func(string)) {
 		{"l3 new hugens 150 1 shadow 0 0 0 5 30", "l3 query t f t"},
 		{"l3 new cname 30 1 enforce 0 0 0 5 30", "l3 query t f t", "l3 again 7"},
 		{"l3 new cname 36 0 enforce 0 0 0 0 30", "l3 query f f t", "l3 again 8"},
+		{"l3 new cname 31 0 shadow 0 0 0 5 30", "l3 query t f t"},
+		{"l3 new cname 48 0 off 0 0 0 0 30", "l3 query f f f"},
 		{"l3 new nscycle 6 0 enforce 0 0 0 5 30", "l3 query t f t", "l3 again 2"},
 		{"l3 new manysig 12 0 enforce 0 0 0 0 30", "l3 query t t t", "l3 again 9"},
 		{"l3 new manysig 6 1 shadow 0 0 2 5 30", "l3 query t t t"},
